@@ -54,14 +54,16 @@ def corrupt(data, rng):
         # no encoding anywhere: every text section is left to "8-bit binary" / JSON auto-detection
         d2 = re.sub(rb': encoding=[^,\r\n]+(?=\r?\n)', b':', data)
         return re.sub(rb'(, )?encoding=[^,\r\n]+(, )?', lambda m: b', ' if m.group(1) and m.group(2) else b'', d2)
-    if r < 0.47:
-        # pathological metadata: very deep nesting
+    if r < 0.474:
+        # pathological metadata: very deep nesting, or valid JSON that is not an object
         m = re.search(rb'^#\.*meta:[^\n]*length=(\d+)[^\n]*\n', data, re.M)
         if m:
             depth = rng.choice([700, 900])
             deep = rng.choice([b'[' * rng.choice([1500, 5000]) + b'\n',
                                b'{"k": ' + b'[' * depth + b']' * depth + b'}\n',        # VALID, but deep
-                               b'{"k": ' + b'{"a": ' * depth + b'1' + b'}' * depth + b'}\n'])
+                               b'{"k": ' + b'{"a": ' * depth + b'1' + b'}' * depth + b'}\n',
+                               # valid JSON that is not an object
+                               b'null\n', b' null \n', b'true\n', b'12\n', b'"text"\n', b'[]\n', b'[{}]\n', b'1.5\n'])
             return data[:m.start(1)] + str(len(deep)).encode() + data[m.end(1):m.end()] + deep + data[m.end() + int(m.group(1)):]
     if r < 0.478:
         # every integer option of ONE header becomes the same huge (or odd) number
